@@ -509,10 +509,11 @@ def run_once(src, marker, g):
         sys.setrecursionlimit(oldrec)
     spans = set()
     for co in _all_code(code):
-        offs = {i.offset: i.positions for i in dis.get_instructions(co)}
+        offs = {i.offset: i for i in dis.get_instructions(co)}
         for (c, off) in executed:
-            if c is co and off in offs and offs[off] is not None:
-                p = offs[off]
+            if c is co and off in offs and offs[off].positions is not None and offs[off].opname.startswith("LOAD_") \
+                    and offs[off].opname not in ("LOAD_CONST", "LOAD_ATTR", "LOAD_FAST_AND_CLEAR", "LOAD_BUILD_CLASS"):
+                p = offs[off].positions
                 spans.add((p.lineno, p.col_offset, p.end_lineno, p.end_col_offset))
     all_read = True
     for n in ast.walk(tree):
@@ -1098,3 +1099,32 @@ def walk_exprs(e):
     yield e
     for x in sub_exprs(e):
         yield from walk_exprs(x)
+
+
+# ----------------------------------------------------------------------------
+# which of the proposed repairs does the code under test carry?  (probed by behaviour, not by name)
+# ----------------------------------------------------------------------------
+_FIX_PROBES = {
+    "exceptUnbind": ("try:\n    pass\nexcept Exception as zq:\n    pass\nzq\n", "zq"),
+    "augLoad": ("zq += 1\n", "zq"),
+    "forIterFirst": ("for zq in [zq]:\n    pass\n", "zq"),
+    "annValueFirst": ("zq: int = zq\n", "zq"),
+    "compScope": ("class C:\n    zq = 1\n    b = [zq for i in [1]]\n", "zq"),
+}
+_FIXES_CACHE = {}
+
+
+def probe_fixes():
+    """-> {"exceptUnbind": bool, ...}: flag true iff find_missing_imports reports the probe's name."""
+    from pyflyby import find_missing_imports
+    import pyflyby
+    key = pyflyby.__file__
+    if key not in _FIXES_CACHE:
+        out = {}
+        for k, (src, name) in _FIX_PROBES.items():
+            try:
+                out[k] = name in [str(x) for x in find_missing_imports(src, [{}])]
+            except Exception:
+                out[k] = False
+        _FIXES_CACHE[key] = out
+    return dict(_FIXES_CACHE[key])
